@@ -15,6 +15,9 @@ import MayVerif.Model.Queue.SpmcReplay
 import MayVerif.Model.Sync.CondvarReplay
 import MayVerif.Model.Sync.BarrierReplay
 import MayVerif.Model.Sync.WaitGroupReplay
+import MayVerif.Model.Runtime.CancelReplay
+import MayVerif.Model.Time.DurReplay
+import MayVerif.Model.Time.TimeoutListReplay
 open MayVerif
 
 def machines : List (String × Machine) := [
@@ -31,5 +34,9 @@ def machines : List (String × Machine) := [
   ("mq_spmc", MayVerif.Spmc.machine),
   ("condvar", MayVerif.Condvar.machine),
   ("barrier", MayVerif.Barrier.machine),
-  ("waitgroup", MayVerif.WaitGroup.machine)
+  ("waitgroup", MayVerif.WaitGroup.machine),
+  ("cancel", MayVerif.Cancel.machine),
+  ("cancel_mutex", MayVerif.Mutex.machine),
+  ("time_dur", MayVerif.Time.machine),
+  ("timeout_list", MayVerif.Time.TL.machine)
 ]
